@@ -1,4 +1,5 @@
 From Coq Require Import Extraction ExtrOcamlBasic NArith ZArith.
 From V Require Import C01.Model.
 Extraction "c01_model.ml" t_run abs_run t_root t_spec_root t_canon t_get s_run commitment empty_state
-  contract_root class_root storage_root bits_of_Z N.of_nat Z.of_N.
+  contract_root class_root storage_root bits_of_Z N.of_nat Z.of_N
+  t1_run t1_empty t1_dump t1_root_key t1_dirty.
